@@ -278,3 +278,74 @@ func VH_C07_CompactMapBytes() {
 	}
 	vhReach("compact-done")
 }
+
+// Many distinct type informations in one register: the shared type table and
+// the references into it are CBOR unsigned integers, whose encoding changes
+// width at 24 (and 256): registers with 23..26 repeated types must decode
+// back to the same children (types, order, content) and re-encode identically.
+//
+//vh:prop C07 C08
+//vh:init cbor
+//vh:param maxtypes 26 26
+func VH_C07_ManyTypeInfos() {
+	vhSetThreshold(8192)
+	storage := vhNewByteStorage()
+	addr := vhAddr(1)
+	lo := 23
+	ntypes := lo + vhChoose("ntypes", vhParam("maxtypes", 26)-lo+1)
+	mapKind := vhChoose("kind", 2) == 1
+	parent, _ := NewArray(storage, addr, vTypeInfo{id: 42})
+	_ = parent.Append(vU64(vhU64("first"))) // a scalar of any CBOR width in front
+	var wantTypes []uint64
+	// each type used once (extra-data index >= 24 without a shared table) or twice (shared table)
+	reps := 1 + vhChoose("reps", 2)
+	for rep := 0; rep < reps; rep++ {
+		for t := 0; t < ntypes; t++ {
+			ty := uint64(100 + t)
+			if mapKind {
+				m, _ := NewMap(storage, addr, NewDefaultDigesterBuilder(), vTypeInfo{id: ty})
+				_ = parent.Append(m)
+			} else {
+				a, _ := NewArray(storage, addr, vTypeInfo{id: ty})
+				_ = parent.Append(a)
+			}
+			wantTypes = append(wantTypes, ty)
+		}
+	}
+	root := parent.root
+	vhAssert(root.IsData(), "single slab")
+	b1, err := EncodeSlab(root, storage.cborEncMode)
+	vhAssert(err == nil, "encode")
+	if err != nil {
+		return
+	}
+	s2, derr := DecodeSlab(root.SlabID(), b1, storage.cborDecMode, vhDecodeStorableB, vhDecodeTypeInfo)
+	vhAssert(derr == nil, "a register produced by the library decodes")
+	if derr != nil {
+		return
+	}
+	ds, ok := s2.(*ArrayDataSlab)
+	vhAssert(ok && len(ds.elements) == 1+reps*ntypes, "decoded element count")
+	if ok && len(ds.elements) == 1+reps*ntypes {
+		for i, want := range wantTypes {
+			var got TypeInfo
+			switch c := ds.elements[i+1].(type) {
+			case *ArrayDataSlab:
+				got = c.extraData.TypeInfo
+			case *MapDataSlab:
+				got = c.extraData.TypeInfo
+			}
+			vhAssert(vhTic(got, vTypeInfo{id: want}), "decoded child keeps its type")
+		}
+	}
+	b2, err2 := EncodeSlab(s2, storage.cborEncMode)
+	vhAssert(err2 == nil && len(b2) == len(b1), "re-encode length")
+	if err2 == nil && len(b2) == len(b1) {
+		same := true
+		for i := range b1 {
+			same = vhAll(same, b1[i] == b2[i])
+		}
+		vhAssert(same, "re-encode of the decoded slab is identical")
+	}
+	vhReach("many-types-done")
+}
